@@ -142,6 +142,9 @@ def small_spec(rng):
     return gen.spec(1)
 
 
+REFUSED = [0, 0]
+
+
 def apply_step(rng, spec, root, notpassed):
     """Pick and apply one reconfiguration to (spec, live tree).  Returns kind or None."""
     nodes = walk(spec)
@@ -250,9 +253,19 @@ def apply_step(rng, spec, root, notpassed):
                 new[name] = {"el": small_spec(rng), "required": rng.random() < 0.5, "source": None}
             if new:
                 kw["properties"] = new
-                live.properties = {
+                objects = {
                     name: sut.Property(gen_dsl.build(p["el"]), required=p["required"]) for name, p in new.items()
                 }
+                if rng.random() < 0.35:
+                    # a first attempt that the library refuses (one value is not a Property), holding the very
+                    # same Property objects under other names: a refused step must leave no trace on them
+                    try:
+                        live.properties = {**{"first_" + name: prop for name, prop in objects.items()},
+                                           "not_a_property": rng.choice([5, "x", None])}
+                        REFUSED[1] += 1
+                    except Exception:  # pylint: disable=broad-except
+                        REFUSED[0] += 1
+                live.properties = objects
             else:
                 kw.pop("properties", None)
                 live.properties = notpassed
@@ -464,6 +477,10 @@ def run_history(ctx, sut, fpm, rng, spec, nsteps):
             except Exception:  # pylint: disable=broad-except
                 return
             continue
+        if REFUSED[0] or REFUSED[1]:
+            ctx.count("step.refused_first_attempt_then_reuse", REFUSED[0])
+            ctx.count("step.bad_first_attempt_not_refused", REFUSED[1])
+            REFUSED[0] = REFUSED[1] = 0
         if kind is None:
             continue
         if dangling(spec):
